@@ -76,8 +76,8 @@ fn model_fields(fs: &[(String, Ty)], xs: &[Val]) -> Option<Vec<(String, Tree)>> 
 
 pub fn key_string(kt: &KeyTy, k: &Val) -> Option<String> {
     match (kt, k) {
-        (KeyTy::SpannedStr, Val::Spanned(_, _, x)) => key_string(&KeyTy::Str, x),
-        (KeyTy::Str, Val::Str(s)) | (KeyTy::NewtypeStr(_), Val::Str(s)) | (KeyTy::SpannedStr, Val::Str(s)) => {
+        (KeyTy::SpannedStr, Val::Spanned(_, _, x)) | (KeyTy::NewtypeSpanned(_), Val::Spanned(_, _, x)) => key_string(&KeyTy::Str, x),
+        (KeyTy::Str, Val::Str(s)) | (KeyTy::NewtypeStr(_), Val::Str(s)) | (KeyTy::SpannedStr, Val::Str(s)) | (KeyTy::NewtypeSpanned(_), Val::Str(s)) => {
             if crate::seam::is_private_key(s) {
                 None
             } else {
@@ -92,7 +92,7 @@ pub fn key_string(kt: &KeyTy, k: &Val) -> Option<String> {
 pub fn ok_root(ty: &Ty) -> bool {
     match ty {
         Ty::Struct(..) => true,
-        Ty::Map(KeyTy::Str | KeyTy::NewtypeStr(_) | KeyTy::UnitVariant(..) | KeyTy::SpannedStr, _) => true,
+        Ty::Map(KeyTy::Str | KeyTy::NewtypeStr(_) | KeyTy::UnitVariant(..) | KeyTy::SpannedStr | KeyTy::NewtypeSpanned(_), _) => true,
         Ty::Newtype(_, t) => ok_root(t),
         _ => false,
     }
@@ -117,9 +117,22 @@ fn tree_dt_in_range(t: &Tree) -> bool {
     }
 }
 
+/// value-aware root test: besides table types, an externally tagged *newtype variant* at the root is
+/// a one-key table (`Variant = payload`)
+pub fn ok_root_val(ty: &Ty, v: &Val) -> bool {
+    if ok_root(ty) {
+        return true;
+    }
+    match (ty, v) {
+        (Ty::Enum(_, vars), Val::Variant(i, _)) => matches!(vars[*i].1, VarTy::Newtype(_)),
+        (Ty::Newtype(_, t), x) => ok_root_val(t, x),
+        _ => false,
+    }
+}
+
 /// Appendix D: the class of scenarios on which every serializer must succeed.
 pub fn must_succeed(ty: &Ty, v: &Val) -> bool {
-    ok_root(ty) && model(ty, v).is_some() && all_dt_in_range(v)
+    ok_root_val(ty, v) && model(ty, v).is_some() && all_dt_in_range(v)
 }
 
 /// Does the value contain a date-time leaf (for probes / route restrictions)?
@@ -234,7 +247,7 @@ pub fn refread(ty: &Ty, tree: &Tree) -> RefOut {
             let mut out = Vec::new();
             for (k, x) in kvs {
                 let kv = match kt {
-                    KeyTy::Str | KeyTy::NewtypeStr(_) | KeyTy::SpannedStr => crate::types::Val::Str(k.clone()),
+                    KeyTy::Str | KeyTy::NewtypeStr(_) | KeyTy::SpannedStr | KeyTy::NewtypeSpanned(_) => crate::types::Val::Str(k.clone()),
                     KeyTy::UnitVariant(_, vars) => match vars.iter().position(|v| v == k) {
                         Some(i) => crate::types::Val::Variant(i, Box::new(crate::types::Val::Unit)),
                         None => return Mismatch,
